@@ -214,6 +214,7 @@ def run(ctx):
     ctx.log('table characters: %d encoded strings parsed and judged (%d trees, %d non-tree outcomes)' % (n, len(tree_items), len(out_items)))
     c04_extra.run_builtin_tables(ctx)
     c04_extra.run_codepoint_windows(ctx)
+    c04_extra.run_helper_histories_c13(ctx)
     ctx.exhaustive = True
     ctx.assumptions += ['"inert" = the strict parse of the output contains no comment, environment or math node; '
                         'arguments parsed in math mode (\\ensuremath{<}) are not math nodes']
